@@ -139,4 +139,14 @@ PROPS = {
                      "the inner order of the four numbers of a reim4 block produced by reim4_from_cplx is not "
                      "constrained (the library uses 0,2,1,3); the round trip and the re/im pairing are", ASAN_NOTE],
     ),
+    "C13": dict(
+        runs=std(),
+        rule=("case = one aliasing pattern exercised once (operation+pattern, N, module type, dispatch, res/aliased/other "
+              "limb counts, strides, p class, repetition): the out-of-place call on a copy and the aliased call; "
+              "distinct by descriptor hash; non-trivial when the aliased operand and the output have >= 1 limb"),
+        require={"all": ["aliased_pairs", "alias:vec_znx_idft(res==a_dft)", "alias:vec_znx_add(res==b)",
+                         "alias:vec_znx_big_sub_small_a(res==b)", "alias:reim_fftvec(r==a==b)", "alias:cplx_fftvec(r==b)"]},
+        assumptions=["the aliased buffer is the very same pointer with the same stride; it holds live (stale) data beyond "
+                     "the aliased operand's limb count", "bitwise equality with the out-of-place call (same kernel runs)", ASAN_NOTE],
+    ),
 }
